@@ -568,6 +568,10 @@ def build_real_world(t, scn, root):
                 if s.get('index') and not s.get('zip'):
                     # found only through the directory's .index file
                     fname = 'x-%s.dat' % name.lower()
+                    if s.get('index') == 'path':
+                        # the index names the file with a directory part
+                        os.makedirs(os.path.join(d, 'vendor'), exist_ok=True)
+                        fname = 'vendor/' + fname
                     with open(os.path.join(d, '.index'), 'a') as f:
                         f.write('%s %s\n' % (name, fname))
                 if s.get('layout') == 'dirpermod' and fname == name and not s.get('zip'):
@@ -1076,7 +1080,7 @@ def gen_world(rng, tier, focus='C07'):
         for s_ in scn['sources']:
             s_['strict'] = rng.random() < 0.5
             if rng.random() < 0.2:
-                s_['index'] = True
+                s_['index'] = rng.choice([True, True, 'path'])
             elif rng.random() < 0.15:
                 s_['layout'] = 'dirpermod'
             elif rng.random() < 0.2:
